@@ -64,6 +64,10 @@ def run(R, tier, seed, driver_ok):
         d = int(rng.randint(2, 6))
         X, y = zoo.blobs(rng, d, int(rng.randint(2, 5)))
         n = len(X)
+        # the formulas are homogeneous: data in very small or very large units (exact power-of-two factors)
+        unit = float(2.0 ** rng.choice([0, 0, -30, -40, 20]))
+        X = X * unit
+        R.count(f'unit-scale:2^{int(np.log2(unit))}')
         # ---------------- Covariance
         for singular in (False, True):
             Xc = X.copy()
@@ -91,10 +95,11 @@ def run(R, tier, seed, driver_ok):
             if pos + s > n:
                 break
             chunks[pool[pos:pos + s]] = cid; cid += 1; pos += s
+        chunks = zoo.relabel_chunks(chunks, rng)            # ids need not be 0..m-1
         mask = chunks >= 0
         centered = X[mask].astype(float).copy()
         cl = chunks[mask]
-        for c in range(cid):
+        for c in np.unique(cl):
             centered[cl == c] -= centered[cl == c].mean(0)
         Cin = centered.T.dot(centered) / mask.sum()
         if np.linalg.matrix_rank(Cin) == d and cid >= 2:
@@ -102,9 +107,12 @@ def run(R, tier, seed, driver_ok):
                 case = {'learner': 'RCA', 'n_components': nc, 'X': X, 'chunks': chunks}
                 R.case(('c09rca', X.tobytes().hex(), chunks.tobytes().hex(), nc), True,
                        sample={'learner': 'RCA', 'n_components': nc, 'n_chunks': cid, 'unchunked_points': int((~mask).sum())}, branch=f'rca:{"full" if nc in (None, d) else "reduced"}')
-                with warnings.catch_warnings():
-                    warnings.simplefilter('ignore')
-                    est = RCA(n_components=nc).fit(X, chunks)
+                try:
+                    with warnings.catch_warnings():
+                        warnings.simplefilter('ignore')
+                        est = RCA(n_components=nc).fit(X, chunks)
+                except Exception as e:
+                    R.violation(f'RCA/fit-raises-{type(e).__name__}', f'RCA(n_components={nc}).fit raised {type(e).__name__}: {str(e)[:120]} on well-formed chunks', case); continue
                 L = np.asarray(est.components_)
                 if L.dtype.kind != 'f':
                     R.violation('RCA/complex', 'RCA components_ not real', case); continue
